@@ -147,6 +147,8 @@ line_to_cmds = Fn(P, 'line_to_cmds', ret='r', strvars=('sep',),
     loops={0: Loop(invariant=[
         ('C05.inv.len', 'len == line@.len()'),
         ('C01+C03.inv.l2c.escape_state_is_the_specified_one', 'has_backslash == lq(line@, __I as int).1'),
+        # "the previous character was a blank, and not an escaped one"
+        ('C01+C03.inv.l2c.blank_flag', 'last_blank ==> __I > 0 && line@[__I - 1] == \' \' && !lq(line@, __I - 1).1'),
         ('C01+C03.inv.l2c.quote_state_is_the_specified_one',
          '(lq(line@, __I as int).0.len() > 0 ==> sep@ == lq(line@, __I as int).0) && '
          '(lq(line@, __I as int).0.len() == 0 ==> sep@.len() == 0 || ((sep@ == seq![\'&\'] || sep@ == seq![\'|\']) && !has_backslash '
@@ -156,8 +158,8 @@ line_to_cmds = Fn(P, 'line_to_cmds', ret='r', strvars=('sep',),
     ])},
     hints={'loop-0-body-entry': 'lemma_quote_lits(); lemma_lq_shape(line@, __I as int); lemma_lq_shape(line@, __I + 1); reveal_strlit(";");',
            # the rest of the line is dropped (a comment) only at an unquoted, unescaped `#` that stands where a word could start
-           'before-text:break;': 'LABEL:C01+C03.l2c.the_rest_of_the_line_is_dropped_only_at_a_hash_that_starts_a_word: '
-                                 'assert(line@[i as int] == \'#\' && lq(line@, i as int).0.len() == 0 && !lq(line@, i as int).1 && (token@.len() == 0 || token@.last() == \' \'));'},
+           'before-text:break;': 'LABEL:C01+C03.l2c.the_rest_of_the_line_is_dropped_only_at_a_hash_that_starts_a_word_or_follows_an_unescaped_blank: '
+                                 'assert(line@[i as int] == \'#\' && lq(line@, i as int).0.len() == 0 && !lq(line@, i as int).1 && (token@.len() == 0 || (i > 0 && line@[i - 1] == \' \' && !lq(line@, i - 1).1)));'},
 )
 
 tokens_to_line = Fn(P, 'tokens_to_line', ret='r',
